@@ -1084,6 +1084,17 @@ fn filt_side<T: Row>(c: PCollection<T>, side: &[Val], q: &SPred) -> PCollection<
         spn(&q, s, &r.to_val())
     })
 }
+/// a user-written composite transform: one map
+struct MapComposite(EFun);
+impl ironbeam::extensions::CompositeTransform<Val, Val> for MapComposite {
+    fn expand(&self, input: PCollection<Val>) -> PCollection<Val> {
+        let f = self.0.clone();
+        input.map(move |x: &Val| {
+            perturb();
+            ef(&f, x)
+        })
+    }
+}
 fn rep<T: Row>(c: PCollection<T>, n: usize) -> PCollection<T> {
     c.flat_map(move |r: &T| vec![r.clone(); n])
 }
@@ -1164,6 +1175,9 @@ pub fn apply_step(p: &Pipeline, c: Coll, s: &Step) -> R<Coll> {
     use Coll::*;
     let ill = || Err(format!("ill-typed step {s:?}"));
     Ok(match (s, c) {
+        // maps written `x + c` with c divisible by 3 go through a user CompositeTransform
+        // (extensions.rs: apply_composite) that expands to the same single map
+        (Step::Map(f @ EFun::Add(k)), U(c)) if k % 3 == 0 => U(c.apply_composite(&MapComposite(f.clone()))),
         (Step::Map(f), U(c)) => {
             let f = f.clone();
             U(c.map(move |x: &Val| {
@@ -1393,6 +1407,9 @@ fn kg_rows(d: &[Val]) -> Vec<(Val, Vec<Val>)> {
 pub fn build(p: &Pipeline, src: &Src, steps: &[Step], dir: &str) -> R<Built> {
     let mut file = None;
     let c = match src {
+        // sources of odd length are built with from_iter (stdlib.rs), the others with from_vec
+        Src::Vec(Shape::U, d) if d.len() % 2 == 1 => Coll::U(ironbeam::from_iter(p, d.iter().cloned())),
+        Src::Vec(Shape::KV, d) if d.len() % 2 == 1 => Coll::KV(ironbeam::from_iter(p, kv_rows(d))),
         Src::Vec(Shape::U, d) => Coll::U(from_vec(p, d.clone())),
         Src::Vec(Shape::KV, d) => Coll::KV(from_vec(p, kv_rows(d))),
         Src::Vec(Shape::KG, d) => Coll::KG(from_vec(p, kg_rows(d))),
@@ -1452,10 +1469,25 @@ pub fn threads() -> Option<usize> {
     crate::opt("threads").and_then(|s| s.parse().ok())
 }
 
+/// `Mode::Par(AUTO_PARTS)` stands for `partitions: None`: the runner then takes the planner's
+/// suggestion (64k rows per partition clamped to [cpus, 8 cpus]) or its default (2 x cpus).  That
+/// number depends on the machine, so AUTO cases are generated only for programs whose result does
+/// not depend on the partitioning; the model runs them with AUTO_PARTS (clamped to the length).
+pub const AUTO_PARTS: usize = 100_003;
+pub fn parts_arg(n: usize) -> Option<usize> {
+    if n == AUTO_PARTS { None } else { Some(n) }
+}
+/// replace the partition count by AUTO with probability 1/d where the program allows it
+pub fn maybe_auto(rng: &mut SplitMix64, steps: &[Step], mode: Mode, d: u64) -> Mode {
+    match mode {
+        Mode::Par(_) if !partition_dependent(steps) && rng.chance(1, d) => Mode::Par(AUTO_PARTS),
+        m => m,
+    }
+}
 fn collect<T: Row>(c: PCollection<T>, mode: Mode) -> Value {
     rows_json(match mode {
         Mode::Seq => c.collect_seq(),
-        Mode::Par(n) => c.collect_par(threads(), Some(n)),
+        Mode::Par(n) => c.collect_par(threads(), parts_arg(n)),
     })
 }
 
@@ -1685,7 +1717,7 @@ pub fn run_sorted_case(input: &Value, dir: &str) -> Value {
         fn plain<T: Row + Ord + ironbeam::RFBound>(c: PCollection<T>, mode: Mode) -> Value {
             rows_json(match mode {
                 Mode::Seq => c.collect_seq_sorted(),
-                Mode::Par(n) => c.collect_par_sorted(threads(), Some(n)),
+                Mode::Par(n) => c.collect_par_sorted(threads(), parts_arg(n)),
             })
         }
         fn by_key<V: ironbeam::RFBound>(c: PCollection<(Val, V)>, mode: Mode) -> Value
@@ -1693,7 +1725,7 @@ pub fn run_sorted_case(input: &Value, dir: &str) -> Value {
             (Val, V): Row,
         {
             match mode {
-                Mode::Par(n) => rows_json(c.collect_par_sorted_by_key(threads(), Some(n))),
+                Mode::Par(n) => rows_json(c.collect_par_sorted_by_key(threads(), parts_arg(n))),
                 Mode::Seq => json!(["invalid"]),
             }
         }
@@ -2554,6 +2586,9 @@ pub fn case_input(src: &Src, steps: &[Step], mode: Mode) -> Value {
 pub fn case_tags(src: &Src, steps: &[Step], mode: Mode, extra: &[&str]) -> Vec<String> {
     let mut t: Vec<String> = extra.iter().map(|s| s.to_string()).collect();
     t.push(match mode { Mode::Seq => "seq".into(), Mode::Par(_) => "par".into() });
+    if mode == Mode::Par(AUTO_PARTS) {
+        t.push("partitions_none".into());
+    }
     t.push(format!("len{}", match src.len() { 0 => "0", 1 => "1", 2..=8 => "2-8", _ => "9+" }));
     t.push(format!("steps{}", match steps.len() { 0 => "0", 1..=3 => "1-3", 4..=8 => "4-8", _ => "9+" }));
     if matches!(src, Src::NoLen(..)) {
